@@ -138,10 +138,14 @@ def collinear_points(mu):
     def g(x):
         return x - (1 - m) * (x + m) / abs(x + m) ** 3 - m * (x - 1 + m) / abs(x - 1 + m) ** 3
 
-    rh = (m / 3) ** (mpm.mpf(1) / 3)
     out = []
-    for guess in (1 - m - rh, 1 - m + rh, -1 - mpm.mpf(5) * m / 12):
-        out.append(mpm.findroot(g, guess, tol=1e-40, maxsteps=200))
+    eps = mpm.mpf(10) ** -7
+    for (a, b) in ((-m + eps, 1 - m - eps), (1 - m + eps, mpm.mpf(2)), (mpm.mpf(-2), -m - eps)):
+        # g is monotone on each of the three axis intervals and changes sign: bracketing solver
+        r = mpm.findroot(g, (a, b), solver="anderson", tol=1e-45, maxsteps=2000)
+        if not (a < r < b):
+            raise RuntimeError("reference collinear root left its bracket")
+        out.append(r)
     return [float(v) for v in out], out
 
 
